@@ -511,6 +511,53 @@ advance:;
     vc_sample("<Dir n1> / d v2 / <Host n3> / h v4 / </Host> / </Dir> / r v7  -> callback stream with levels, sections, parent chains; count 7");
 }
 
+/* ---- (iv) nesting depth: d sections inside each other, one directive in the innermost, for every d ----
+ * level is documented as "number of parents, root level is 0" and is an 8-bit field: up to 255 parents it must be exact;
+ * a document nested more deeply can only be refused (-1, message naming the line that opens the section which does
+ * not fit) - never delivered with a wrapped level, and never a crash of the recursive parser */
+static int deep_bad, deep_ncb, deep_maxlevel; static char deep_msg[200];
+static QAC_CB(cb_deep) {
+    (void)userdata; deep_ncb++;
+    int parents = 0; for (qaconf_cbdata_t *p = data->parent; p; p = p->parent) parents++;
+    if ((int)data->level != parents && !deep_bad++) snprintf(deep_msg, sizeof deep_msg, "callback %d (%s): level %d but %d parents", deep_ncb, data->argv[0], (int)data->level, parents);
+    if (parents > deep_maxlevel) deep_maxlevel = parents;
+    return NULL;
+}
+static void deep_case(int d) {
+    char key[64]; snprintf(key, sizeof key, "acdeep:%d", d);
+    if (!vc_case("qaconf_parse", key)) return;
+    n_eval++; n_nontrivial++;
+    char *docb = malloc((size_t)d * 40 + 64), *o = docb;
+    for (int i = 0; i < d; i++) o += sprintf(o, "<S n%d>\n", i);
+    o += sprintf(o, "x v\n");
+    for (int i = 0; i < d; i++) o += sprintf(o, "</S>\n");
+    wr(docb); free(docb);
+    qaconf_t *c = qaconf();
+    qaconf_option_t opt[] = {{"S", QAC_TAKE1, cb_deep, 0, QAC_SECTION_ALL}, {"x", QAC_TAKE1, cb_deep, 0, QAC_SECTION_ALL}, QAC_OPTION_END};
+    c->addoptions(c, opt); deep_bad = deep_ncb = deep_maxlevel = 0; deep_msg[0] = 0;
+    int r = c->parse(c, mpath, 0); const char *e = c->errmsg(c);
+    if (deep_bad) vc_viol("apache:level", "%s: %s (%d callbacks with a wrong level)", key, deep_msg, deep_bad);
+    if (d <= 255) {
+        if (r != 2 * d + 1 || e) vc_viol("apache:count", "%s: returned %d, message '%s'; expected %d directives", key, r, e ? e : "-", 2 * d + 1);
+        else if (deep_ncb != 2 * d + 1 || deep_maxlevel != d) vc_viol("apache:callbacks", "%s: %d callbacks, deepest has %d parents; expected %d and %d", key, deep_ncb, deep_maxlevel, 2 * d + 1, d);
+    } else if (r != -1) {
+        if (r != 2 * d + 1 || deep_ncb != 2 * d + 1 || deep_maxlevel != d) vc_viol("apache:count", "%s: returned %d after %d callbacks", key, r, deep_ncb);
+    } else {   /* refused: the message names the line of the section that does not fit, everything before it was delivered */
+        char want_[32]; snprintf(want_, sizeof want_, ":%d ", 256);
+        if (!e || !strstr(e, want_)) vc_viol("apache:errmsg-line", "%s: refused with message '%s', expected it to name line 256", key, e ? e : "(null)");
+        if (deep_ncb < 255 || deep_ncb > 256) vc_viol("apache:callbacks-before-error", "%s: %d callbacks before the refusal", key, deep_ncb);
+    }
+    c->free(c);
+    if (vc_asan_check()) vc_viol("asan:qaconf_parse", "%s", key);
+    vc_case_end();
+}
+static void run_acdeep(int dense, int thorough) {
+    for (int d = 1; d <= dense; d++) { deep_case(d); if (vc_deadline_hit()) return; }
+    static const int far_[] = {400, 512, 513, 1000, 1500, 1800, 2000, 2500, 3000, 5000, 10000, 20000};
+    for (int i = 0; i < (int)(sizeof far_ / sizeof far_[0]); i++) if (far_[i] > dense && (thorough || far_[i] <= 5000)) deep_case(far_[i]);
+    vc_sample("<S n0> ... <S n%d> / x v / </S> ... : level == number of parents in every callback, count 2d+1; beyond 255 parents only a refusal naming line 256", dense - 1);
+}
+
 static int replay(const char *key) {
     if (!strncmp(key, "ini:", 4)) {
         int layout; char sep; int off; sscanf(key + 4, "%d:%c:%n", &layout, &sep, &off);
@@ -525,6 +572,7 @@ static int replay(const char *key) {
     else if (!strncmp(key, "actype:all", 10)) run_actype(2);
     else if (!strncmp(key, "acquote:", 8)) run_acquote(3, 0, 1);
     else if (!strncmp(key, "acobject:", 9)) run_acobject();
+    else if (!strncmp(key, "acdeep:", 7)) deep_case(atoi(key + 7));
     else if (!strncmp(key, "acstruct:", 9)) { int f, mi, md; sscanf(key + 9, "%d:%d:%d", &f, &mi, &md); run_acstruct(f, mi, md, 0, 1); }
     return 0;
 }
@@ -538,6 +586,7 @@ static int worker(int argc, char **argv) {
     else if (!strcmp(m, "actype")) run_actype(atoi(argv[2]));
     else if (!strcmp(m, "acquote")) run_acquote(atoi(argv[2]), atol(argv[3]), atol(argv[4]));
     else if (!strcmp(m, "acobject")) run_acobject();
+    else if (!strcmp(m, "acdeep")) run_acdeep(atoi(argv[2]), atoi(argv[3]));
     else if (!strcmp(m, "acstruct")) run_acstruct(atoi(argv[2]), atoi(argv[3]), atoi(argv[4]), atol(argv[5]), atol(argv[6]));
     else return 1;
     vc_stat_add("evaluations", n_eval);
